@@ -111,3 +111,16 @@ package codegen
 //@   mode bv
 //@   tags C05
 //@   at (*Writer).getBaseTypeName assert [pointer-params-are-inout] int(arg.Type) < len(w.module.Types) && is(w.module.Types[int(arg.Type)].Inner, ir.PointerType) ==> qualifier == "inout " && arg1 == w.module.Types[int(arg.Type)].Inner.(ir.PointerType).Base
+
+// ---- zero-initialisation loop of large workgroup arrays (C15, C05) ------------------------------------
+//
+// WGSL zero-initialises workgroup memory. Large arrays are cleared element by
+// element: the loop runs over the array's *length*, and the loop for a nested
+// array uses the next loop variable (depth+1) on the element type.
+// (varargK = K-th operand of the format string.)
+//
+//@ func (*Writer).writeWorkgroupZeroInit
+//@   mode bv
+//@   tags C15 C05
+//@   at WriteLine assert [loop-covers-array] arg1 == "for (uint %s = 0u; %s < %du; %s++) {" ==> vararg2 == size
+//@   at (*Writer).writeWorkgroupZeroInit assert [nested-loop] arg2 == arr.Base && arg3 == depth + 1
